@@ -92,6 +92,12 @@ func (e *histEnv) runStep(st Step) []string {
 	case st.Do == "map":
 		_ = e.bfs.Map()
 		return []string{"ok"}
+	case st.Do == "marshal":
+		// MarshalJSON reads the whole tracked map: it has to wait for a running operation
+		if _, err := json.Marshal(e.bfs); err != nil {
+			return []string{"err", errClass(err)}
+		}
+		return []string{"ok"}
 	}
 	return []string{"?"}
 }
@@ -234,7 +240,7 @@ func streamConc(cfg *Config, res *Result) error {
 		}
 	}
 	syscall.Umask(umask)
-	others := []Step{{Do: "rollback"}, {Do: "map"}}
+	others := []Step{{Do: "rollback"}, {Do: "map"}, {Do: "marshal"}}
 	for i := 0; i < nPairs; i++ {
 		hc := genHistCase(r, HistGen{Layering: "disjoint", NSteps: 3, Rollbacks: 1, NoRollback: true}, umask)
 		var paths []string
